@@ -144,8 +144,12 @@ class Check:
         with open(tmp, "w") as f:
             json.dump(ev, f, indent=1, default=str)
         os.replace(tmp, os.path.join(VERIF, "evidence", self.pid + ".json"))
+        printed = set()
         for full, (k, text) in sorted(self.known_hit.items()):
-            print("KNOWN-FINDING: property=%s %s [%s]" % (self.pid, k.get("what", ""), full))
+            if k["key"] in printed:
+                continue
+            printed.add(k["key"])
+            print("KNOWN-FINDING: property=%s %s [%s]" % (self.pid, k.get("what", ""), k["key"]))
         for full, text, d in self.violations:
             print("VIOLATION property=%s replay=%s" % (self.pid, d))
             print("  key=%s %s" % (full, text[:600]))
